@@ -267,6 +267,7 @@ func (h *Session) ICMP6SendRouterAdvertisement(prefixes []PrefixInformation, rdn
 	if err != nil {
 		return err
 	}
+	mb = append([]byte{byte(ipv6.ICMPTypeRouterAdvertisement), 0, 0, 0}, mb...) // icmp6 header: type, code, checksum
 
 	return h.icmp6SendPacket(Addr{MAC: h.NICInfo.HostAddr4.MAC, IP: h.NICInfo.HostLLA.Addr()}, dstAddr, mb)
 }
@@ -284,6 +285,7 @@ func (h *Session) ICMP6SendRouterSolicitation() error {
 	if err != nil {
 		return err
 	}
+	mb = append([]byte{byte(ipv6.ICMPTypeRouterSolicitation), 0, 0, 0}, mb...) // icmp6 header: type, code, checksum
 
 	return h.icmp6SendPacket(Addr{MAC: h.NICInfo.HostAddr4.MAC, IP: h.NICInfo.HostLLA.Addr()}, IP6AllRoutersAddr, mb)
 }
